@@ -208,18 +208,25 @@ def memo_sound(fn: FuncInfo, target: ast.Subscript, value: ast.expr) -> bool:
             for t in n.targets:
                 if isinstance(t, ast.Name):
                     defs.setdefault(t.id, []).append(n.value)
-    key_names = names_in(target.slice)
     params = {a.arg for a in fn.node.args.args + fn.node.args.kwonlyargs}
-    # expand key names through their definitions (key = f(pattern) -> pattern is a key name too)
-    frontier = list(key_names)
-    allowed = set(key_names)
-    while frontier:
-        x = frontier.pop()
-        for d in defs.get(x, []):
-            for y in names_in(d):
-                if y not in allowed:
-                    allowed.add(y)
-                    frontier.append(y)
+
+    def injective_names(e: ast.AST, depth: int = 0) -> Set[str]:
+        """Names whose values can be read back from the key: the key itself, members of a tuple key, and,
+        for a name bound once, the same for its definition.  key = f(x) does not determine x."""
+        if isinstance(e, ast.Name):
+            out = {e.id}
+            ds = defs.get(e.id, [])
+            if len(ds) == 1 and depth < 4 and e.id not in params:
+                out |= injective_names(ds[0], depth + 1)
+            return out
+        if isinstance(e, ast.Tuple):
+            out = set()
+            for x in e.elts:
+                out |= injective_names(x, depth)
+            return out
+        return set()
+
+    allowed = injective_names(target.slice)
     # id()/hash() of an object is not a key that determines anything about it
     key_exprs: List[ast.AST] = [target.slice]
     for x in list(allowed):
@@ -228,6 +235,8 @@ def memo_sound(fn: FuncInfo, target: ast.Subscript, value: ast.expr) -> bool:
         for c in ast.walk(e):
             if isinstance(c, ast.Call) and isinstance(c.func, ast.Name) and c.func.id in ("id", "hash"):
                 return False
+    if not allowed:
+        return False
     seen: Set[str] = set()
     todo = list(names_in(value))
     while todo:
@@ -241,9 +250,11 @@ def memo_sound(fn: FuncInfo, target: ast.Subscript, value: ast.expr) -> bool:
             for d in defs[x]:
                 todo.extend(names_in(d))
             continue
-        if x in params and x != "self":
+        if x in params and (x != "self" or root_name(target.value) != "self"):
+            # `self` is configuration only for a memo that lives on self; in a container shared between
+            # instances the instance must be part of the key
             return False
-        # module-level names, builtins, self: configuration
+        # module-level names, builtins, self (for a memo on self): configuration
     return True
 
 
@@ -329,6 +340,19 @@ def census(model: Model, exclude_modules: Tuple[str, ...] = ("utils.", "cli", "_
                     ws = WriteSite(fi, n, "attr-store", ast.unparse(n.args[0]), f.id)
                     classify(n.args[0], ws, True)
                     sites.append(ws)
+    # eviction from a key-determined memo: the container only ever receives memo stores, so removing entries
+    # can only turn a later hit into a recomputation of the same value
+    by_recv: Dict[Tuple[str, str], List[WriteSite]] = {}
+    for w in sites:
+        owner = w.fn.cls.qualname if w.fn.cls is not None else w.fn.module.short
+        by_recv.setdefault((owner, w.receiver), []).append(w)
+    for (_owner, _recv), ws_list in by_recv.items():
+        stores = [w for w in ws_list if w.kind == "item-store"]
+        if not stores or any(w.cls != "memo" for w in stores):
+            continue
+        for w in ws_list:
+            if w.cls == "shared" and ((w.kind == "mutator" and w.detail in ("pop", "popitem", "clear")) or w.kind == "delete"):
+                w.cls, w.reason = "memo", "eviction from a container that only holds key-determined memo entries"
     return sites
 
 
@@ -374,3 +398,45 @@ def class_level_mutables(model: Model) -> List[Tuple[ClassInfo, str, ast.expr]]:
             ):
                 out.append((ci, name, e))
     return out
+
+
+CACHE_DECORATORS = ("lru_cache", "cache", "memoize", "cached")
+
+
+def cache_decorators(fi: FuncInfo) -> List[str]:
+    return [d for d in fi.decorators if d.split(".")[-1].split("(")[0] in CACHE_DECORATORS]
+
+
+def cache_key_problem(model: Model, fi: FuncInfo) -> Optional[str]:
+    """Why a functools-style cache on `fi` may return a result computed for different inputs, or None.
+
+    The cache key is the argument tuple compared with ==/hash.  For a method the instance is part of the key through
+    its class's __eq__/__hash__: every attribute the method reads must take part in both (identity keys are faithful
+    as long as attributes are only assigned in constructors, which C16 R16.2 checks).  Module-level mutable state read
+    by the body is not part of any key."""
+
+    def self_attrs(f: Optional[FuncInfo]) -> Set[str]:
+        if f is None:
+            return set()
+        return {n.attr for n in ast.walk(f.node) if isinstance(n, ast.Attribute) and isinstance(n.value, ast.Name) and n.value.id == "self"}
+
+    if fi.is_generator:
+        return "the function is a generator: the cached object is a one-shot iterator that is exhausted after its first use"
+    # mutable module-level containers read by the body
+    for n in ast.walk(fi.node):
+        if isinstance(n, ast.Name) and isinstance(n.ctx, ast.Load):
+            v = fi.module.assigns.get(n.id)
+            if isinstance(v, (ast.Dict, ast.List, ast.Set)) or (isinstance(v, ast.Call) and ast.unparse(v.func) in FRESH_CALLS - {"tuple", "frozenset"}):
+                for w in census(model, exclude_modules=()):
+                    if w.receiver == n.id and w.cls == "shared":
+                        return f"reads the module-level container {n.id}, which is written elsewhere and is not part of the cache key"
+    if fi.cls is None:
+        return None
+    reads = self_attrs(fi) - set(fi.cls.methods)
+    eq, hs = fi.cls.find_method("__eq__"), fi.cls.find_method("__hash__")
+    if eq is None and hs is None:
+        return None
+    missing = sorted(a for a in reads if a not in self_attrs(eq) or a not in self_attrs(hs))
+    if missing:
+        return f"reads self.{', self.'.join(missing)}, which __eq__/__hash__ of {fi.cls.name} do not cover: instances that agree on the compared attributes share one cache entry"
+    return None
